@@ -144,12 +144,16 @@ def ref_leaf(name, v):
     if name == 'enum_num':
         # (an int is also what the float-valued member's own type accepts: 2 would be 2.0 - no member; 1 is A)
         return _enum_like([(m.value, m) for m in grammar.EnumNum], v, 'enum')
+    if name == 'enum_swap':
+        return _enum_like([(m.value, m) for m in grammar.EnumSwap], v, 'enum')
     if name == 'enum_mixed':
         return _enum_like([(m.value, m) for m in grammar.EnumMixed], v, 'enum')
     if name == 'lit_str':
         return _enum_like([('a', 'a'), ('b', 'b')], v, None)
     if name == 'lit_mixed':
         return _enum_like([(1, 1), ('a', 'a'), (None, None)], v, None)
+    if name == 'lit_long':
+        return _enum_like([(x, x) for x in (0, False, 1, 2, 3, 4, 5, 'a', 'b', None)], v, None)
     if name == 'sub_str':
         return (OK, grammar.SubStr(v)) if k == 'str' else _rej('kind')
     if name == 'sub_int':
@@ -488,10 +492,10 @@ LEAF_MEMBERS: t.Dict[str, t.List[t.Any]] = {
     'decimal': ['1.5', 2, 0.25], 'fraction': ['1/3', 2, 0.5],
     'date': ['2023-09-05'], 'time': ['11:11:11'], 'datetime': ['2023-09-05T11:11:11', '2023-09-05'],
     'pattern': ['a+b', ''], 'pattern_bytes': [b'a+'],
-    'purepath': ['a/b'], 'pureposixpath': ['/a/b'], 'path': ['a/b'], 'pathlike': ['a/b'],
+    'purepath': ['a/b'], 'pureposixpath': ['/a/b'], 'path': ['a/b', '~/d'], 'pathlike': ['a/b', '~/d'],
     'any': [1, 'a', [1, 'x'], {'a': [1]}, None],
-    'enum_int': [1, 2], 'enum_str': ['x', 'y'], 'enum_mixed': [1, 's', None], 'enum_strmix': ['red', 'blue'], 'enum_intmix': [1, 2], 'enum_num': [2.5, 1],
-    'lit_str': ['a', 'b'], 'lit_mixed': [1, 'a', None], 'lit_v1': ['v1'], 'lit_v2': ['v2'], 'lit_1': [1], 'lit_2': [2],
+    'enum_int': [1, 2], 'enum_str': ['x', 'y'], 'enum_mixed': [1, 's', None], 'enum_strmix': ['red', 'blue'], 'enum_intmix': [1, 2], 'enum_num': [2.5, 1], 'enum_swap': ['RIGHT', 'LEFT'],
+    'lit_str': ['a', 'b'], 'lit_mixed': [1, 'a', None], 'lit_long': [0, False, 1, 'b', None], 'lit_v1': ['v1'], 'lit_v2': ['v2'], 'lit_1': [1], 'lit_2': [2],
     'sub_str': ['abc'], 'sub_int': [5], 'sub_float': [2.5, 2],
     'sub_list': [[1, 'a']], 'sub_dict': [{'a': 1}],
     'bare_list': [[], [1, 'a']], 'bare_tuple': [[], [1, 'a'], (1,)], 'bare_dict': [{}, {'a': 1, 2: 'b'}],
@@ -665,6 +669,18 @@ def dc_near(spec) -> t.List[t.Any]:
         on = classes_gen.out_name(f, opts)
         if on not in firm and on not in soft:
             out.append({**{k: x for k, x in full.items() if k not in firm}, on: members(f['type'])[0]})
+    for f in fields:
+        # a field GIVEN the value of its own default (the very object where it is a singleton), and a value == to it of another
+        # kind - alone and next to another field that fails: "as if it had been left out" is not what giving it means
+        df = f.get('default')
+        if df and df[0] == 'value':
+            dv = eval(df[1], {})  # noqa: S307 - the spec's own literal
+            key = classes_gen.input_names(f, opts)[0][0]
+            for cand in [dv] + ([values._twin(dv)] if values._twin(dv) is not None else []):
+                out.append({**full, key: cand})
+                for g in fields:
+                    if g is not f:
+                        out.append({**full, key: cand, classes_gen.input_names(g, opts)[0][0]: [['bad']]})
     req = [f for f in fields if not classes_gen.has_default(f)]
     if req:
         d = {k: x for k, x in full.items() if k not in classes_gen.input_names(req[0], opts)[0]}
@@ -754,7 +770,7 @@ def check_serial(ast, x, d, path='$') -> t.Optional[str]:
                     return f"{path}: expected the adjacent layout {{'t': {tg!r}, 'c': ...}}, got {d!r}"
                 body = d['c']
             return _check_serial_dc(grammar.DC_SPECS[leaf], x, body, path)
-        if ast in ('int', 'float', 'complex', 'str', 'bytes', 'bool', 'none', 'lit_str', 'lit_mixed', 'lit_v1', 'lit_v2', 'lit_1', 'lit_2'):
+        if ast in ('int', 'float', 'complex', 'str', 'bytes', 'bool', 'none', 'lit_str', 'lit_mixed', 'lit_long', 'lit_v1', 'lit_v2', 'lit_1', 'lit_2'):
             want = x
         elif ast == 'bytearray':
             return None if type(d) in (bytes, bytearray) and bytes(d) == bytes(x) else f"{path}: expected the bytes {bytes(x)!r}, got {d!r}"
@@ -766,7 +782,7 @@ def check_serial(ast, x, d, path='$') -> t.Optional[str]:
             want = x.isoformat()
         elif ast in ('pattern', 'pattern_bytes'):
             want = x.pattern
-        elif ast in ('enum_int', 'enum_str', 'enum_mixed', 'enum_strmix', 'enum_intmix', 'enum_num'):
+        elif ast in ('enum_int', 'enum_str', 'enum_mixed', 'enum_strmix', 'enum_intmix', 'enum_num', 'enum_swap'):
             want = x.value
             if ast == 'enum_intmix':
                 want = int(want)
